@@ -331,3 +331,4 @@ def run(eng: Engine, ck: Check):
     _d11.string_decoding_tolerant(eng, ck, 'R-C11-CONNECTBACK', 'a ConnectToPeer request naming such a user must still reach the handler that answers it')
     from . import defs as _d_act
     _d_act.active_connection_definition(eng, ck, 'R-C11-INIT', 'create_peer_connection re-uses a connection picked by this test')
+    _d_act.obfuscation_reset_definition(eng, ck, 'R-C11-INIT', 'the connection create_peer_connection returns is usable: both ends agree on whether what follows the init message is obfuscated')
